@@ -37,6 +37,7 @@ type Profile struct {
 	MaxWindows  int    `json:"max_windows"`
 	History     bool   `json:"history,omitempty"` // keep invoke/return history (C05)
 	ExtRead     bool   `json:"ext_read,omitempty"`
+	SmallIDs    bool   `json:"small_ids,omitempty"` // 3..6 shared ids so that batches conflict
 
 	PostRun func(r *Run, res *Result) `json:"-"`
 }
@@ -96,6 +97,9 @@ func decodeKnobs(p *Profile, t *Tape) *Knobs {
 		k.MidGate = 0 // InMemoryDirectory.Persist holds its lock while writing
 	}
 	k.IDSpace = 3 + t.Draw(8, "k.idspace")
+	if p.SmallIDs {
+		k.IDSpace = 3 + k.IDSpace%4
+	}
 	k.Clients = p.MinClients + t.Draw(p.MaxClients-p.MinClients+1, "k.clients")
 	for i := 0; i < k.Clients; i++ {
 		k.Ops = append(k.Ops, p.MinOps+t.Draw(p.MaxOps-p.MinOps+1, "k.ops"))
@@ -221,6 +225,10 @@ type Run struct {
 	stopping  bool
 	budgetStop bool
 	parkedLog []string
+	merging   map[string][]string // actor -> ids of live documents in the segments it is merging
+	callWin   map[int]int
+	prevMonKey string
+	snapReads []readData
 }
 
 // HistOp is one completed client operation with event-sequence stamps.
@@ -305,6 +313,7 @@ func (r *Run) buildConfig() bluge.Config {
 	}
 	if r.k.EventGates {
 		ic.EventCallback = func(e index.Event) {
+			r.s.Rec("event", eventName(e.Kind), nil)
 			r.s.Gate("event", eventName(e.Kind))
 		}
 	} else {
@@ -314,11 +323,10 @@ func (r *Run) buildConfig() bluge.Config {
 		// separate "woke the other loop" from "went on to the next select",
 		// which would otherwise race inside one window.
 		ic.EventCallback = func(e index.Event) {
+			r.s.Rec("event", eventName(e.Kind), nil)
 			if e.Kind == index.EventKindPersisterProgress || e.Kind == index.EventKindMergerProgress {
 				r.s.Gate("event", eventName(e.Kind))
-				return
 			}
-			r.s.Rec("event", eventName(e.Kind), nil)
 		}
 	}
 	return cfg.VerifWithIndexConfig(ic)
@@ -346,15 +354,19 @@ func eventName(k int) string {
 	return fmt.Sprintf("event-%d", k)
 }
 
-func (r *Run) onMerge(n int, live []uint64) {
+func (r *Run) onMerge(n int, live []uint64, ids []string) {
 	if n >= 3 {
 		r.probe("merge-3plus-inputs")
 	}
-	if r.s.ActorName() == "persister" {
+	actor := r.s.ActorName()
+	if actor == "persister" {
 		r.probe("in-memory-merge")
 	} else {
 		r.probe("file-merge")
 	}
+	r.mu.Lock()
+	r.merging[actor] = ids
+	r.mu.Unlock()
 }
 
 // ---- clients -------------------------------------------------------------
@@ -415,6 +427,20 @@ func (r *Run) exec(c *client, op *Op) {
 			err = r.w.Batch(ib)
 		}
 		r.s.Rec("return", fmt.Sprintf("B%d %s", b.N, errStr(err)), retData{b.N, err})
+	case "snap-read":
+		r.s.Rec("invoke", "snap-read", snapInv{c.idx})
+		rd, err := r.w.Reader()
+		if err != nil {
+			r.fail("reader", "Writer.Reader failed: "+err.Error())
+			return
+		}
+		cont, err := ReadAll(rd, r.idspace)
+		_ = rd.Close()
+		if err != nil {
+			r.fail("reader", "reading a fresh reader failed: "+err.Error())
+			return
+		}
+		r.s.Rec("return", "snap-read "+cont.Key(), readData{-1, cont, c.idx})
 	case "reader-open":
 		rd, err := r.w.Reader()
 		if err != nil {
@@ -433,7 +459,7 @@ func (r *Run) exec(c *client, op *Op) {
 		r.mu.Lock()
 		r.slots[op.Slot] = h
 		r.mu.Unlock()
-		r.s.Rec("reader-open", fmt.Sprintf("#%d %s", op.Slot, base.Key()), readData{op.Slot, base})
+		r.s.Rec("reader-open", fmt.Sprintf("#%d %s", op.Slot, base.Key()), readData{op.Slot, base, c.idx})
 	case "reader-read":
 		r.mu.Lock()
 		h := r.slots[op.Slot]
@@ -467,9 +493,11 @@ type retData struct {
 	err error
 }
 type readData struct {
-	slot int
-	c    *Content
+	slot   int
+	c      *Content
+	client int
 }
+type snapInv struct{ client int }
 
 func (r *Run) rereadHeld(slot int, h *heldReader) {
 	c, err := ReadAll(h.r, r.idspace)
@@ -489,6 +517,9 @@ func (r *Run) rereadHeld(slot int, h *heldReader) {
 		}
 	}
 	h.reads++
+	if r.s.Win > h.openWin+1 {
+		r.probe("reader-reread")
+	}
 	r.s.Rec("reader-read", fmt.Sprintf("#%d ok", slot), nil)
 }
 
@@ -498,8 +529,15 @@ func (r *Run) genBatch(c *client) *BatchSpec {
 	t := r.t
 	b := &BatchSpec{N: r.nextBatch, Client: c.idx}
 	r.nextBatch++
+	mergingNow := map[string]bool{}
+	for _, id := range r.mergingIDs(nil) {
+		mergingNow[id] = true
+	}
 	mk := func(kind int, id string, opno int) BatchOp {
 		op := BatchOp{Kind: kind, ID: id}
+		if kind != OpInsert && mergingNow[id] {
+			r.stats.Probes["delete-into-merge-window"]++
+		}
 		if kind != OpDelete {
 			op.Doc = genDoc(t, id, fmt.Sprintf("c%d.b%d.o%d", c.idx, b.N, opno), r.k.Geo)
 			r.stored[op.Doc.UID] = op.Doc.Stored()
@@ -584,13 +622,51 @@ func (r *Run) genOp(c *client) *Op {
 			return &Op{Kind: "reader-close", Slot: held[t.Draw(len(held), "op.slot")]}
 		}
 	}
+	if r.p.History && t.Chance(1, 4, "op.snapread") {
+		return &Op{Kind: "snap-read"}
+	}
 	return &Op{Kind: "batch", Batch: r.genBatch(c)}
 }
 
-// mergingIDs is filled by merge.go (ids of live documents in segments that
-// are currently being merged); empty when nothing is merging.
+// clearMerging forgets a merge once its actor has moved past the introduction.
+func (r *Run) clearMerging() {
+	r.mu.Lock()
+	defer r.mu.Unlock()
+	if len(r.merging) == 0 {
+		return
+	}
+	for _, p := range r.s.parkedSnapshot() {
+		if _, ok := r.merging[p.actor]; !ok {
+			continue
+		}
+		switch {
+		case p.actor == "persister" && p.label == "dir.persist" && strings.HasSuffix(p.detail, ".snp"),
+			p.label == "event" && (p.detail == "merger-progress" || p.detail == "persister-progress" || p.detail == "merge-intro"),
+			p.label == "plan.calcBudget", p.label == "policy.commit", p.label == "dir.stats":
+			delete(r.merging, p.actor)
+		}
+	}
+}
+
+// mergingIDs returns the ids of live documents in segments that are being
+// merged right now (between the Merge seam and the introduction).
 func (r *Run) mergingIDs(used map[string]bool) []string {
-	return nil
+	r.mu.Lock()
+	defer r.mu.Unlock()
+	set := map[string]bool{}
+	for _, ids := range r.merging {
+		for _, id := range ids {
+			if !used[id] {
+				set[id] = true
+			}
+		}
+	}
+	var rv []string
+	for id := range set {
+		rv = append(rv, id)
+	}
+	sort.Strings(rv)
+	return rv
 }
 
 // ---- scheduler -----------------------------------------------------------
@@ -764,6 +840,14 @@ func (r *Run) afterWindow() {
 				r.batches = append(r.batches, d)
 				r.stats.Batches++
 				r.invokeSeq[d.N] = e.Seq
+				r.callWin[d.Client] = e.Win
+			}
+		case snapInv:
+			r.callWin[d.client] = e.Win
+		case readData:
+			r.snapReads = append(r.snapReads, d)
+			if d.slot < 0 && r.p.History {
+				r.hist = append(r.hist, HistOp{Client: d.client, Call: 2 * r.callWin[d.client], Ret: 2*e.Win + 1, Kind: "read", Read: d.c.Key()})
 			}
 		case retData:
 			r.returned = append(r.returned, d.n)
@@ -777,7 +861,8 @@ func (r *Run) afterWindow() {
 				}
 			}
 			if r.p.History {
-				r.hist = append(r.hist, HistOp{Client: r.batchByN(d.n).Client, Call: r.invokeSeq[d.n], Ret: e.Seq, Kind: "batch", Batch: r.batchByN(d.n), Err: errStr(d.err)})
+				b := r.batchByN(d.n)
+				r.hist = append(r.hist, HistOp{Client: b.Client, Call: 2 * r.callWin[b.Client], Ret: 2*e.Win + 1, Kind: "batch", Batch: b, Err: errStr(d.err)})
 			}
 		case ackData:
 			if d.err == nil {
@@ -793,10 +878,26 @@ func (r *Run) afterWindow() {
 	if r.failed() {
 		return
 	}
+	prevKey := r.lastMonKey
 	r.monitor()
 	if r.failed() {
 		return
 	}
+	for _, sr := range r.snapReads {
+		// a Reader obtained inside this window read either the root the
+		// window started with or the root it ended with (one release per
+		// window; merges and persists do not change content)
+		if k := sr.c.Key(); k != prevKey && k != r.lastMonKey {
+			r.fail("reader-prefix", fmt.Sprintf("a Reader obtained by client%d in window %d holds %s, which is neither the abstract index before (%s) nor after (%s) that window", sr.client, r.s.Win, k, prevKey, r.lastMonKey))
+			return
+		}
+		if msg := CompareModelDocs(sr.c, r.stored); msg != "" {
+			r.fail("reader-prefix", msg)
+			return
+		}
+	}
+	r.snapReads = r.snapReads[:0]
+	r.clearMerging()
 	r.dirInvariants(evs)
 	r.heldReaderProbes(evs)
 }
@@ -867,9 +968,26 @@ func tail(s []string, n int) string {
 }
 
 func (r *Run) heldReaderProbes(evs []*Event) {
+	r.mu.Lock()
+	held := 0
+	for _, h := range r.slots {
+		if h != nil {
+			held++
+		}
+	}
+	r.mu.Unlock()
+	if held == 0 {
+		return
+	}
 	for _, e := range evs {
-		if d, ok := e.data.(*DirOp); ok && d.Op == "remove" && d.Err == "" {
-			_ = d
+		if e.Kind == "merge" {
+			r.stats.Probes["reader-held-across-merge"]++
+		}
+		if e.Kind == "cleanup" && strings.Contains(e.Detail, "!") {
+			r.stats.Probes["remove-refused-while-reader-open"]++
+		}
+		if e.Kind == "cleanup" && strings.Contains(e.Detail, ".seg ") || strings.HasSuffix(e.Detail, ".seg]") {
+			r.stats.Probes["reader-held-across-unlink-of-other-files"]++
 		}
 	}
 }
@@ -880,7 +998,8 @@ var runCounter int
 
 func newRun(p *Profile, t *Tape, scratch string) *Run {
 	runCounter++
-	r := &Run{p: p, t: t, stored: map[string]map[string]string{}, acks: map[int]int{}, ackErr: map[int]string{}, invokeSeq: map[int]int{}}
+	r := &Run{p: p, t: t, stored: map[string]map[string]string{}, acks: map[int]int{}, ackErr: map[int]string{}, invokeSeq: map[int]int{},
+		merging: map[string][]string{}, callWin: map[int]int{}}
 	r.stats.Probes = map[string]int{}
 	r.root = filepath.Join(scratch, fmt.Sprintf("run-%d", runCounter))
 	r.dir = filepath.Join(r.root, "d0")
@@ -955,6 +1074,12 @@ func (s *Sim) parkedSnapshot() []*parked {
 
 // quiescentChecks: all clients returned, background idle.
 func (r *Run) quiescentChecks() {
+	st := r.w.VerifIndexWriter().Stats()
+	r.stats.Probes["merge-skipped-all-deleted"] += int(st.TotFileMergeIntroductionsObsoleted)
+	r.stats.Probes["persister-nap-completed"] += int(st.TotPersisterNapPauseCompleted)
+	r.stats.Probes["persister-nap-broken-by-merger"] += int(st.TotPersisterMergerNapBreak)
+	r.stats.Probes["persister-paused-for-slow-merger"] += int(st.TotPersisterSlowMergerPause)
+	r.stats.Probes["file-merge-empty-segment"] += int(st.TotFileMergeSegmentsEmpty)
 	if !r.chain.Unique() {
 		r.probe("ambiguous-final-explanation")
 	}
